@@ -130,6 +130,7 @@ func kindOf(a bchutil.Address) string {
 
 // c02CheckAccepted applies the statement to one accepted string (any family).
 func c02CheckAccepted(w *mc.W, kind string, cas any, s string, netName string, a bchutil.Address) {
+	registerCustomNet()
 	c := w.Ctx()
 	net := netParams[netName]
 	rn := refNet(netName)
@@ -203,7 +204,7 @@ func c02CheckAccepted(w *mc.W, kind string, cas any, s string, netName string, a
 			return
 		}
 		isPK, isSH := false, false
-		for _, n := range ref.Nets {
+		for _, n := range c02Nets() {
 			if n.P2PKHID == v {
 				isPK = true
 			}
@@ -221,7 +222,7 @@ func c02CheckAccepted(w *mc.W, kind string, cas any, s string, netName string, a
 		if !bytes.Equal(payload, a.ScriptAddress()) {
 			c.Violate("legacy-payload-wrong", kind, cas, "")
 		}
-		for _, n := range ref.Nets {
+		for _, n := range c02Nets() {
 			want := (isPK && n.P2PKHID == v) || (isSH && n.P2SHID == v)
 			if a.IsForNet(netParams[n.Name]) != want {
 				c.Violate("legacy-network-membership-wrong", kind, cas, fmt.Sprintf("%q (version %#x, %s): IsForNet(%s)=%v want %v", s, v, k, n.Name, !want, want))
@@ -250,6 +251,7 @@ func sanitizeReason(s string) string {
 }
 
 func c02EvalCash(w *mc.W, cas c02Cash) {
+	registerCustomNet()
 	c := w.Ctx()
 	s, _ := cas.build()
 	w.Eval()
@@ -296,7 +298,14 @@ func (cas c02Legacy) build() string {
 	return ref.B58Encode(append(b, ck[:4]...))
 }
 
+// c02Nets: the six built-in networks and the custom-registered one
+func c02Nets() []ref.Net {
+	registerCustomNet()
+	return append(append([]ref.Net{}, ref.Nets...), customNet)
+}
+
 func c02EvalLegacy(w *mc.W, cas c02Legacy) {
+	registerCustomNet()
 	c := w.Ctx()
 	s := cas.build()
 	w.Eval()
@@ -308,7 +317,7 @@ func c02EvalLegacy(w *mc.W, cas c02Legacy) {
 	}
 	// expected acceptance: 20 bytes, version registered for exactly one kind, good checksum
 	isPK, isSH := false, false
-	for _, n := range ref.Nets {
+	for _, n := range c02Nets() {
 		if n.P2PKHID == byte(cas.Version) {
 			isPK = true
 		}
@@ -320,7 +329,9 @@ func c02EvalLegacy(w *mc.W, cas c02Legacy) {
 	if err != nil {
 		w.Outcome("legacy rejected")
 		if should {
-			c.Violate("rejects-valid-legacy-address", "legacy", cas, fmt.Sprintf("%q: %v", s, err))
+			// C02 is about what may be ACCEPTED; a refusal never violates it (acceptance of the strings
+			// the library itself produces is C01's clause).  Counted, not reported.
+			w.Outcome("legacy rejected although well-formed (allowed by C02)")
 		}
 		return
 	}
@@ -395,6 +406,7 @@ func (cas c02Pub) build() string {
 var c02PubShapes = []string{"x33-on", "x33-off", "xy65", "xy65-negY", "xy65-offY", "x33-geP", "xy65-geP", "len32", "len34", "len64", "len66"}
 
 func c02EvalPub(w *mc.W, cas c02Pub) {
+	registerCustomNet()
 	c := w.Ctx()
 	s := cas.build()
 	w.Eval()
@@ -444,6 +456,7 @@ func c02StrOf(net, s string) c02Str {
 }
 
 func c02EvalStr(w *mc.W, cas c02Str) {
+	registerCustomNet()
 	c := w.Ctx()
 	w.Eval()
 	if cas.SHex != "" {
@@ -464,6 +477,7 @@ func c02EvalStr(w *mc.W, cas c02Str) {
 }
 
 func runC02(c *mc.Ctx) {
+	registerCustomNet()
 	c.Rule("strings are constructed with the reference encoders so that they pass the checksum layer (all 256 version bytes x payload lengths 0..65 x pad-bit values x known/unknown prefixes x renderings; all Base58Check versions x lengths 0..40; all first bytes x key shapes), decoded by the real DecodeAddress on every network; every accepted string must satisfy fold(s)==re-encoding, the strict reference decoder and the membership rules; non-trivial = accepted strings")
 	c.Assume("reference strict decoder (ref.CashStrictDecode) transcribes the CashAddr specification: known type 0/1, size code matches length, <5 zero pad bits")
 
@@ -511,7 +525,8 @@ func runC02(c *mc.Ctx) {
 	c.Sample("cash", c02Cash{Net: "mainnet", Prefix: "bitcoincash", Version: 0x10, Len: 20, Fill: 1, Pad: 0, Render: 0})
 
 	// (B) legacy
-	ldims := []int{nNets, 256, 41, 2, 2}
+	lnets := c02Nets() // the legacy family also runs on the custom-registered network
+	ldims := []int{len(lnets), 256, 41, 2, 2}
 	ltotal := int64(1)
 	for _, d := range ldims {
 		ltotal *= int64(d)
@@ -524,7 +539,7 @@ func runC02(c *mc.Ctx) {
 			i /= int64(ldims[k])
 		}
 		w.State()
-		c02EvalLegacy(w, c02Legacy{Net: ref.Nets[idx[0]].Name, Version: idx[1], Len: idx[2], Fill: idx[3], Corrupt: idx[4] == 1})
+		c02EvalLegacy(w, c02Legacy{Net: lnets[idx[0]].Name, Version: idx[1], Len: idx[2], Fill: idx[3], Corrupt: idx[4] == 1})
 	})
 	c.Sample("legacy", c02Legacy{Net: "mainnet", Version: 5, Len: 20, Fill: 1})
 
@@ -666,6 +681,29 @@ func runC02(c *mc.Ctx) {
 			})
 		}
 		c.Space("cashaddr strings with a character outside the alphabet and the checksum a lenient decoder would expect: position x byte value 0..255 x foreign character", calls.Load())
+	}
+
+	// (C4) two different legacy addresses whose Base58Check checksums are equal (birthday search), and two
+	// different cash addresses of one prefix whose low 20 checksum bits... are not searched (2^40): the
+	// legacy pair is decoded alternately - what a decoder keeps from one call (a cache keyed by the
+	// already-verified checksum) must not answer for another string
+	{
+		for _, ver := range []byte{0x00, 0x05} {
+			a, b, ok := checksumTwins(func(i uint32) []byte {
+				return append([]byte{ver, 0x01, byte(i >> 24), byte(i >> 16), byte(i >> 8), byte(i)}, bytes.Repeat([]byte{0x3c}, 15)...)
+			}, 1<<20)
+			if !ok {
+				c.NotExhaustive("no checksum twins found within 2^20 candidates")
+				continue
+			}
+			w := c.Worker()
+			for _, p := range [][]byte{a, b, a, b} {
+				w.State()
+				c02EvalStr(w, c02StrOf("mainnet", ref.B58CheckEncode(p[0], p[1:])))
+			}
+			w.Done()
+		}
+		c.Space("legacy address pairs with equal checksums, decoded alternately", 8)
 	}
 
 	// (D) literals
